@@ -6,7 +6,8 @@ a builtin type token (u<digit>, i<digit>, f32, f64, str) - see known finding K4.
 from . import schema as S
 
 BOUNDARY_WIDTHS = [1, 2, 3, 7, 8, 9, 15, 16, 17, 31, 32, 33, 63, 64]
-ENUM_MAXES = [0, 1, 2, 3, 4, 5, 7, 8, 15, 16, 127, 128, 255, 256, 300, 511, 65535, 65536, (1 << 31) - 1]
+ENUM_MAXES = [0, 1, 2, 3, 4, 5, 7, 8, 15, 16, 127, 128, 255, 256, 300, 511, 65535, 65536, (1 << 31) - 1,
+              1 << 31, (1 << 32) - 1, 1 << 49, (1 << 53) - 1, 1 << 53, (1 << 63) - 1]
 
 
 def mk_enum(name, mx, r=None):
@@ -15,6 +16,8 @@ def mk_enum(name, mx, r=None):
         for _ in range(2):
             vals.add(r.randint(0, mx))
     vals = sorted(vals)
+    if r is not None and r.random() < 0.5:
+        r.shuffle(vals)  # the largest enumerator is not necessarily declared last
     return {"kind": "enum", "name": name, "values": [("%s_V%d" % (name, v), v) for v in vals]}
 
 
@@ -65,7 +68,7 @@ def container_grid(offsets):
     decls = []
     cells = []
     enums = []
-    for mx in [1, 2, 5, 7, 200, 256, 65535, (1 << 31) - 1]:
+    for mx in [1, 2, 5, 7, 200, 256, 65535, (1 << 31) - 1, 1 << 49, (1 << 53) - 1, (1 << 63) - 1]:
         e = mk_enum("Ge%d" % mx, mx)
         enums.append(e)
     decls += enums
